@@ -11,6 +11,7 @@ T: the real MachineController.load_application against the simulated machine wit
 This module contains no oracle: it drives rig, copies what the simulator logged into events and mechanically
 encodes arguments, addresses and exceptions.
 """
+import collections
 import copy
 import itertools
 import os
@@ -31,11 +32,34 @@ _SIMS = {}
 
 
 # ---------------------------------------------------------------------------------------------- environment
+class AppMaskMachine(SimMachine):
+    """Signals and core counts reach the cores whose application id equals the packet's under the packet's
+    application mask (bits 15:8 of arg2), as on the real machine.  spinnaker_sim applies them to the packet's
+    application id alone - right as long as the mask is 0xff or no other application is loaded; here other
+    applications' cores may be waiting at their barrier while the call runs.  A packet with another mask is executed
+    as one packet with the full mask for every application id present that it matches."""
+
+    def _cmd_22(self, chip, p, a, data, rec):
+        app, mask = a[1] & 0xff, (a[1] >> 8) & 0xff
+        if mask == 0xff:
+            return SimMachine._cmd_22(self, chip, p, a, data, rec)
+        present = {c.core_app[i] for c in self.chips.values() for i in range(1, c.ncores)} | {app}
+        total, res = 0, None
+        for ap in sorted(present):
+            if (ap & mask) == (app & mask):
+                res = SimMachine._cmd_22(self, chip, p, (a[0], (a[1] & ~0xffff) | 0xff00 | ap) + tuple(a[2:]), data, rec)
+                total += rec.get("count", 0)
+        if "count" in rec:
+            rec["count"] = total
+            return (total,), res[1]
+        return res
+
+
 def get_sim(w, h):
     """one simulated machine per shape, returned to its power-on core state before every scenario"""
     sim = _SIMS.get((w, h))
     if sim is None:
-        sim = _SIMS[(w, h)] = SimMachine(w, h, STRUCT_TEXT)
+        sim = _SIMS[(w, h)] = AppMaskMachine(w, h, STRUCT_TEXT)
     return sim
 
 
@@ -85,9 +109,10 @@ def events_of(sim, records):
         elif ff is not None and ff[0] == "end":
             evs.append(["end", ff[1], ff[2], ff[3], [list(c) for c in rec.get("loaded", [])]])
         elif "count" in rec:
-            evs.append(["count", (rec["arg2"] >> 16) & 0xf, rec["arg2"] & 0xff, rec["reply_args"][0]])
+            evs.append(["count", (rec["arg2"] >> 16) & 0xf, rec["arg2"] & 0xff, rec["reply_args"][0],
+                        (rec["arg2"] >> 8) & 0xff])
         elif "signal" in rec:
-            evs.append(["signal", rec["signal"], rec["arg2"] & 0xff])
+            evs.append(["signal", rec["signal"], rec["arg2"] & 0xff, (rec["arg2"] >> 8) & 0xff])
         elif rec["cmd"] == 2 and rec.get("rc") == 0x80 and rec["arg2"] == 1 and (x, y) in sim.chips:
             chip = sim.chips[(x, y)]
             ps = [p for p in range(18) if sim.vcpu_addr(chip, p, "cpu_state") == rec["arg1"]]
@@ -118,6 +143,28 @@ class Workdir(object):
 
 
 # ---------------------------------------------------------------------------------------------- one scenario
+def shaped_args(names, sc):
+    """the positional arguments of the call in one of the documented shapes: (file name, targets) or one application
+    map; the maps plain dictionaries, ordered dictionaries, or what rig.place_and_route.utils.build_application_map
+    returns (a defaultdict of defaultdicts of sets); the cores of a chip a set or a frozenset"""
+    shape = sc.get("shape", "dict")
+    cores = frozenset if shape == "frozen" else set
+    tgs = [[(xy, cores(ps)) for xy, ps in tg.items()] for _, tg in sc["bins"]]
+    if shape == "appmap":
+        amap = collections.defaultdict(lambda: collections.defaultdict(set))
+        for name, tg in zip(names, tgs):
+            amap[name]
+            for xy, ps in tg:
+                amap[name][xy].update(ps)
+    elif shape == "ordered":
+        amap = collections.OrderedDict((name, collections.OrderedDict(tg)) for name, tg in zip(names, tgs))
+    else:
+        amap = {name: dict(tg) for name, tg in zip(names, tgs)}
+    if sc["style"] == "two":
+        return (names[0], amap[names[0]])
+    return (amap,)
+
+
 def one_call(sim, mc, wd, sc):
     """one call of load_application, recorded: the machine's state before, every command it executed, its state
     after, the outcome.  Returns the trace and the number of fills the call started."""
@@ -135,15 +182,26 @@ def one_call(sim, mc, wd, sc):
         k = seen["n"]
         return k <= len(schedule) and tuple(chip) in schedule[k - 1]
     sim.miss = miss
-    if sc["style"] == "two":
-        args = (names[0], {xy: set(ps) for xy, ps in sc["bins"][0][1].items()})
-    else:
-        args = ({names[i]: {xy: set(ps) for xy, ps in tg.items()} for i, (_, tg) in enumerate(sc["bins"])},)
+    args = shaped_args(names, sc)
     try:
         how = sc.get("how", "kw")
         if how == "kw":
             mc.load_application(*args, app_id=sc["app"], wait=bool(sc["wait"]), n_tries=sc["ntries"],
                                 use_count=bool(sc["usecount"]))
+        elif how == "dflt":
+            # arguments left out where the documented default is what the scenario wants: wait (default: do not
+            # wait, i.e. start the cores) and use_count (default True)
+            kw = dict(app_id=sc["app"], n_tries=sc["ntries"])
+            if sc["wait"]:
+                kw["wait"] = True
+            if not sc["usecount"]:
+                kw["use_count"] = False
+            mc.load_application(*args, **kw)
+        elif how == "over":
+            # ... and what the call says wins over what the enclosing blocks say
+            with mc(app_id=sc["app"] ^ 3, n_tries=sc["ntries"] + 1, wait=not sc["wait"]):
+                mc.load_application(*args, app_id=sc["app"], wait=bool(sc["wait"]), n_tries=sc["ntries"],
+                                    use_count=bool(sc["usecount"]))
         else:
             # the application id, whether to wait and the number of tries are contextual arguments: they may come
             # from enclosing blocks instead of the call
@@ -171,7 +229,8 @@ def one_call(sim, mc, wd, sc):
               bins=[dict(data=list(bytearray(data)), tg=[[x, y, sorted(ps)] for (x, y), ps in sorted(tg.items())])
                     for data, tg in sc["bins"]],
               miss=[[list(c) for c in sorted(s)] for s in sc["miss"]], init=init, ev=evs,
-              label=sc.get("label", ""), style=sc["style"], nn_id=sc.get("nn_id", 0))
+              label=sc.get("label", ""), style=sc["style"], nn_id=sc.get("nn_id", 0), how=sc.get("how", "kw"),
+              shape=sc.get("shape", "dict"))
     return tr, seen["n"]
 
 
@@ -186,9 +245,11 @@ def run_scenario(wd, sc):
     try:
         mc = MachineController("sim")
         earlier = []
-        for (data, targets) in sc.get("pre", ()):
-            t, _ = one_call(sim, mc, wd, dict(app=sc["app"], wait=1, ntries=2, usecount=0, style="two",
-                                              bins=[(data, targets)], miss=[], label="earlier load",
+        for pre in sc.get("pre", ()):
+            data, targets = pre[0], pre[1]
+            # (a third member: the earlier load was of ANOTHER application, whose cores wait at its barrier)
+            t, _ = one_call(sim, mc, wd, dict(app=pre[2] if len(pre) > 2 else sc["app"], wait=1, ntries=2, usecount=0,
+                                              style="two", bins=[(data, targets)], miss=[], label="earlier load",
                                               reuse=sc.get("reuse", False)))
             earlier.append(t)
         if "nn_id" in sc:
@@ -265,6 +326,24 @@ def small_scope(chk, rng, wd, sink):
             explore_schedules(wd, sc, [(0, 0), (1, 0)], ntries + 1, sink)
 
 
+def other_app_scope(chk, rng, wd, sink):
+    """exhaustive in the miss schedule: 2 chips, 1..2 attempts, cores of another application waiting"""
+    modes = [(u, w) for u in (1, 0) for w in (0, 1)]
+    data, other, d1 = make_binary(rng, 16, 2, 4), make_binary(rng, 16, 1, 0), make_binary(rng, 16, 1, 4)
+    # cores of ANOTHER application waiting at its barrier (earlier loads under another application id; the ids differ
+    # from the requested one in a low bit, a high bit, or everywhere): the count must not see them, the start signal
+    # must not start them, whichever chips miss - as many of them on a chip as requested cores there, so that a count
+    # that saw them would come out right exactly when that chip misses
+    for k, (app, oapp) in enumerate(((30, 31), (66, 194), (16, 239))):
+        for (u, w) in modes:
+            sc = dict(w=2, h=1, buf=16, app=app, wait=w, ntries=k % 2, usecount=u, style="two" if k == 1 else "map",
+                      bins=[(data, {(0, 0): {1, 2}, (1, 0): {3}})],
+                      pre=[(other, {(1, 0): {5}}, oapp), (d1, {(0, 0): {6, 7}}, oapp)], nn_id=0,
+                      how=("kw", "ctx", "dflt")[(k + u + w) % 3], shape=("dict", "appmap", "frozen")[k],
+                      label="small with another application waiting")
+            explore_schedules(wd, sc, [(0, 0), (1, 0)], k % 2 + 1, sink)
+
+
 SHAPES = [(1, 1), (2, 1), (2, 2), (3, 1), (3, 2), (4, 4), (5, 4)]
 
 
@@ -323,14 +402,58 @@ def random_scenario(rng):
             for (xy, p) in free[:nreq + rng.randint(1, 3)]:
                 sub.setdefault(xy, set()).add(p)
             pre.append((make_binary(rng, buf), sub))
-    ntries = rng.choice((0, 1, 2, 2, 3))
+    app = rng.choice((16, 30, 66, 255))
+    # cores of another application (any other id: one bit away, or unrelated) waiting at its barrier, in either
+    # verification mode: they are neither counted nor started with the requested application
+    if rng.random() < 0.3:
+        held = taken | {(xy, p) for pr in pre for xy, ps in pr[1].items() for p in ps}
+        free = [(xy, p) for (xy, p) in cores if (xy, p) not in held]
+        oapp = rng.choice((app ^ 1, app ^ 0x80, app ^ 0x10, rng.choice([a for a in range(1, 256) if a != app])))
+        sub = {}
+        for (xy, p) in free[:rng.randint(1, 4)]:
+            sub.setdefault(xy, set()).add(p)
+        if sub and oapp:
+            pre.append((make_binary(rng, buf), sub, oapp))
+    ntries = rng.choice((0, 1, 2, 2, 3, 5))
     pm = rng.choice((0.0, 0.15, 0.4, 0.7, 1.0))
     miss = [[xy for xy in chips if rng.random() < pm] for _ in range((ntries + 1) * nb)]
-    return dict(w=w, h=h, ncores=ncores, buf=buf, app=rng.choice((16, 30, 66, 255)), wait=rng.random() < 0.5,
+    return dict(w=w, h=h, ncores=ncores, buf=buf, app=app, wait=rng.random() < 0.5,
                 ntries=ntries, usecount=usecount, style="two" if nb == 1 and rng.random() < 0.5 else "map",
                 bins=bins, miss=miss, pre=pre, nn_id=rng.choice((0, 0, 1, 60, 124, 125, 126)), label="random",
                 reuse=rng.random() < 0.3,       # the binaries' files are rewritten in place between the loads
-                how=rng.choice(("kw", "kw", "ctx")))
+                how=rng.choice(("kw", "kw", "ctx", "dflt", "over")),
+                shape=rng.choice(("dict", "dict", "ordered", "appmap", "frozen")))
+
+
+def big_scenario(rng, k):
+    """the far ends of the binary's size: one word; images of many blocks, up to the 32 KiB of a core's instruction
+    memory in 128 blocks of 256 bytes (block numbers and the announced count well beyond the few blocks of the
+    other families), a block more or less, a word more or less"""
+    w, h = rng.choice(((1, 1), (2, 1), (2, 2)))
+    chips = [(x, y) for x in range(w) for y in range(h)]
+    if k == 0:
+        buf, data = rng.choice((16, 256)), bytes(bytearray(rng.randrange(256) for _ in range(4)))
+    elif k == 1:
+        buf = 256
+        data = make_binary(rng, buf, 128, rng.choice((0, 0, -4)))
+    else:
+        buf = rng.choice((16, 16, 32, 64, 128))
+        nblk = rng.choice((15, 16, 17, 63, 64, 65, 100, 127, 128, 129, 200, 255))
+        # (255 blocks is the most the start packet's 8-bit count can announce: no word more there)
+        data = make_binary(rng, buf, nblk, rng.choice((-4, 0) if nblk == 255 else (-4, 0, 4)))
+    tg = {xy: set(rng.sample(range(1, 18), rng.randint(1, 3))) for xy in chips if rng.random() < 0.8 or xy == (0, 0)}
+    bins = [(data, tg)]
+    if rng.random() < 0.4:
+        bins.append((make_binary(rng, buf, rng.choice((1, 2, 40))),
+                     {xy: {p for p in range(1, 18) if p not in tg.get(xy, ())} & set(rng.sample(range(1, 18), 4))
+                      for xy in chips[:2]}))
+    ntries = rng.choice((0, 1, 1))
+    pm = rng.choice((0.0, 0.3))
+    return dict(w=w, h=h, ncores=18, buf=buf, app=rng.choice((16, 66)), wait=rng.random() < 0.5, ntries=ntries,
+                usecount=rng.random() < 0.5, style="map" if len(bins) > 1 or rng.random() < 0.5 else "two", bins=bins,
+                miss=[[xy for xy in chips if rng.random() < pm] for _ in range((ntries + 1) * len(bins))],
+                pre=[], nn_id=rng.choice((0, 126)), label="binary of one word / of many blocks",
+                how=rng.choice(("kw", "ctx", "dflt")), shape=rng.choice(("dict", "appmap")))
 
 
 def wide_scenario(rng):
@@ -357,6 +480,33 @@ def wide_scenario(rng):
                 usecount=rng.random() < 0.5, style="map", bins=bins,
                 miss=[[xy for xy in chips if rng.random() < pm] for _ in range((ntries + 1) * len(bins))],
                 pre=[], nn_id=rng.choice((0, 7)), label="wide machine, coarse and fine regions", how=rng.choice(("kw", "ctx")))
+
+
+def huge_scenario(rng, k):
+    """a machine 32 x 16: a core requested on every chip of a whole aligned 16 x 16 area (one region of the second
+    coarsest level), on two whole 4 x 4 blocks of the other 16 x 16 area (one region word with two blocks selected) and
+    on single chips - region words of three levels in one fill, on a machine where they select different chips"""
+    w, h = 32, 16
+    chips = [(x, y) for x in range(w) for y in range(h)]
+    ax = 16 * k if k < 2 else rng.choice((0, 16))        # the full area; the other one holds blocks and singles
+    ox = 16 - ax
+    core = rng.randint(1, 5)
+    tg = {(ax + dx, dy): {core} for dx in range(16) for dy in range(16)}
+    for (bx, by) in rng.sample([(i, j) for i in range(0, 16, 4) for j in range(0, 16, 4)], 2):
+        for dx in range(4):
+            for dy in range(4):
+                tg[(ox + bx + dx, by + dy)] = {core}
+    for xy in rng.sample([c for c in chips if c not in tg], 3):
+        tg[xy] = {core, core + 2}
+    extra = rng.sample(sorted(tg), 2)
+    for xy in extra:
+        tg[xy] = tg[xy] | {core + 1}
+    bins = [(make_binary(rng, 64, 1), tg)]
+    ntries = rng.choice((0, 1))
+    miss = [[xy for xy in chips if rng.random() < 0.02] for _ in range(ntries + 1)]
+    return dict(w=w, h=h, ncores=18, buf=64, app=rng.choice((16, 30)), wait=rng.random() < 0.5, ntries=ntries,
+                usecount=k % 2, style="map", bins=bins, miss=miss, pre=[], nn_id=3,
+                label="32 x 16 machine, regions of three levels", how="kw", shape="appmap")
 
 
 def describe(tr):
@@ -416,6 +566,7 @@ def run(chk):
     wd = Workdir(chk)
     traces = []
     small_scope(chk, rng, wd, traces.append)
+    other_app_scope(chk, random.Random(chk.seed + 707), wd, traces.append)
     nsmall = len(traces)
     for _ in range(chk.pick(500, 8000)):
         tr, _n, earlier = run_scenario(wd, random_scenario(rng))
@@ -423,6 +574,18 @@ def run(chk):
         traces.append(tr)
     for _ in range(chk.pick(8, 120)):
         tr, _n, earlier = run_scenario(wd, wide_scenario(rng))
+        traces.append(tr)
+    rng2 = random.Random(chk.seed + 909)         # (the earlier families keep the inputs they had)
+    for k in range(chk.pick(7, 80)):
+        tr, _n, earlier = run_scenario(wd, big_scenario(rng2, k))
+        traces.append(tr)
+    for k in range(chk.pick(2, 12)):
+        tr, _n, earlier = run_scenario(wd, huge_scenario(rng2, k))
+        traces.append(tr)
+    # the empty application map: nothing to load, nothing may be loaded
+    for wait in (0, 1):
+        tr, _n, earlier = run_scenario(wd, dict(w=2, h=1, buf=16, app=30, wait=wait, ntries=1, usecount=1 - wait,
+                                                style="map", bins=[], miss=[], nn_id=0, label="empty application map"))
         traces.append(tr)
     for tr in traces:
         note(chk, tr)
@@ -432,14 +595,22 @@ def run(chk):
                 "and 2 chips with cores already waiting from earlier loads; (2) random machines of 1..20 chips with 3..18 "
                 "cores, buffers of 16..512 bytes, 1..3 binaries of whole words around multiples of the buffer size "
                 "(sometimes with equal contents), sparse and block-dense targets, random miss schedules, earlier loads "
-                "of the same application id; non-trivial = some targeted chip misses a fill that was sent, or cores "
+                "of the same application id and of OTHER application ids (their cores wait at their barrier: neither "
+                "counted nor started with the requested application - count and signal packets are executed under their "
+                "application mask), arguments left to their documented defaults (wait, use_count) or overriding an "
+                "enclosing context block, application maps as dict / OrderedDict / build_application_map's defaultdicts, "
+                "core sets as set / frozenset; (3) binaries of one word and of 15..255 blocks (up to 32 KiB in 128 "
+                "blocks of 256 bytes); a 32 x 16 machine with region words of three levels in one fill; the empty "
+                "map; non-trivial = some targeted chip misses a fill that was sent, or cores "
                 "were already waiting; distinct = distinct (machine, arguments, binaries, effective schedule, earlier state)")
     chk.exhaustive = False          # the random tail is not; the small-scope part is (see small_scope_domain)
     chk.extra["small_scope_exhaustive"] = True
     chk.extra["small_scope_traces"] = nsmall
     chk.extra["small_scope_domain"] = ("all effective miss schedules (every subset of chips per fill, for as many fills as the "
                                  "call starts): 1 binary/3 chips/n_tries 0..2; 2 binaries/2 chips/n_tries %s; "
-                                 "2 chips with earlier loads/n_tries 0..1; crossed with use_count and wait%s"
+                                 "2 chips with earlier loads/n_tries 0..1; 2 chips with 3 cores of another application "
+                                 "waiting (ids one low bit / one high bit / all bits apart)/n_tries 0..1; crossed with "
+                                 "use_count and wait%s"
                                  % (chk.pick("0..1", "0..2"), chk.pick(" (n_tries=2 of the first family: two of the four "
                                                                        "mode combinations)", "")))
     chk.assumptions += [
@@ -453,6 +624,11 @@ def run(chk):
         "check decides); the coincidence 'foreign + loaded = requested' violates the documented precondition of "
         "use_count ('the targets dictionary will be assumed to represent all the cores that will be loaded') and "
         "stays outside the domain - LoadAppDesign_foreigncount.cfg shows the property fails there",
+        "a count or signal packet addresses the cores whose application id equals the packet's in the bits set in "
+        "the packet's application mask (arg2 bits 15:8), as SC&MP does; c09.AppMaskMachine and LoadAppTrace both follow "
+        "this (spinnaker_sim alone treats every mask as 0xff)",
+        "images have at most 255 blocks (the start packet announces the count in 8 bits; load_application does not "
+        "guard against more - with the standard 256-byte buffer that is 65 280 bytes, above a core's 32 KiB of ITCM)",
         "AttemptsBounded takes n_tries as the number of re-tries (at most n_tries + 1 attempts, as coded); the "
         "docstring's 'number of attempts' would be n_tries",
         "the simulator's flood-fill, count, signal and state-read effects are validated against LoadApp.tla in every trace",
@@ -462,6 +638,7 @@ def run(chk):
     # job R: behaviours of LoadAppDesign chosen by TLC's simulator, replayed through the real loader
     from . import c09_replay
     c09_replay.run_replay(chk)
+    from . import lifecycle; lifecycle.run_beyond(chk)
 
 
 # ---------------------------------------------------------------------------------------------- self-test
@@ -475,6 +652,11 @@ def selftest(chk):
     bad = run_scenario(wd, dict(base, miss=[[(1, 0)], [(1, 0)]]))[0]        # raises naming (1, 0, 3)
     counted = run_scenario(wd, dict(base, usecount=1, miss=[[(0, 0)]]))[0]
     waiting = run_scenario(wd, dict(base, wait=1, style="map", miss=[[(0, 0)]]))[0]
+
+    # cores of another application (31: one bit from 30) waiting while the call runs
+    withother = dict(base, pre=[(data, {(1, 0): {5}}, 31)])
+    masked = run_scenario(wd, dict(withother, miss=[]))[0]
+    mcounted = run_scenario(wd, dict(withother, usecount=1, miss=[]))[0]
 
     def mut(tr, f, **setup):
         t = dict(tr, **setup)
@@ -492,7 +674,11 @@ def selftest(chk):
     def swap(ev, i, j):
         ev[i], ev[j] = ev[j], ev[i]
     cases = [
-        (good, None), (bad, None), (counted, None), (waiting, None),
+        (good, None), (bad, None), (counted, None), (waiting, None), (masked, None), (mcounted, None),
+        # a start signal / a count whose mask also matches the other application: the model's machine then starts /
+        # counts its core too
+        (mut(masked, lambda ev: ev[idx(masked, "signal")].__setitem__(3, 0xfe)), "SimulatorStateMatchesModel"),
+        (mut(mcounted, lambda ev: ev[idx(mcounted, "count", 0)].__setitem__(4, 0xfe)), "CountAnswerMatchesModel"),
         (mut(g, lambda ev: ev[s0].__setitem__(2, ev[s0][2] + 1)), "StartAnnouncesBlocks"),
         (mut(g, lambda ev: ev.__delitem__(d0)), "BlocksConsecutive"),
         (mut(g, lambda ev: swap(ev, sel0, sel1)), "SelectsIncreasing"),
@@ -520,7 +706,7 @@ def selftest(chk):
         (mut(bad, lambda ev: ev[-1].__setitem__(2, [])), "RaisedNamesExactlyMissing"),
         (mut(bad, lambda ev: ev[-1].__setitem__(1, "KeyError")), "OnlyLoadingError"),
         (mut(waiting, lambda ev: ev.__setitem__(len(ev) - 1, ["raise", "SpiNNakerLoadingError", []])), "RaisedOnlyWhenMissing"),
-        (mut(waiting, lambda ev: ev.insert(len(ev) - 2, ["signal", 3, 30])), "StartSignalOnlyWhenNotWaiting"),
+        (mut(waiting, lambda ev: ev.insert(len(ev) - 2, ["signal", 3, 30, 255])), "StartSignalOnlyWhenNotWaiting"),
         (mut(bad, lambda ev: None, ntries=3), "RaisedOnlyAfterAllowedAttempts"),
         (mut(g, lambda ev: ev.__delitem__(idx(g, "final"))), "FinalStateSeen"),
     ]
@@ -531,4 +717,4 @@ def selftest(chk):
         cl = got.get(id(tr))
         if (want is None) != (cl is None) or (want and want not in cl):
             msgs.append("case %d: expected %s, got %s" % (n, want, cl))
-    return not msgs, "; ".join(msgs) or "%d corrupted traces rejected with the expected clauses" % (len(cases) - 4)
+    return not msgs, "; ".join(msgs) or "%d corrupted traces rejected with the expected clauses" % (len(cases) - 6)
